@@ -855,3 +855,15 @@ VARIANTS["C04"] += [
       "                    if (not self.does_pause_resume()) or resource >= self.max_t:\n                        trial_decision = SchedulerDecision.STOP\n                        act_str = \"Terminating\"\n                    else:\n                        trial_decision = SchedulerDecision.PAUSE\n                        act_str = \"Pausing\"",
       "                    if self.does_pause_resume() and resource < self.max_t:\n                        trial_decision = SchedulerDecision.PAUSE\n                        act_str = \"Pausing\"\n                    else:\n                        trial_decision = SchedulerDecision.STOP\n                        act_str = \"Terminating\""),
 ]
+
+VARIANTS["C03"] += [
+    B("bracket recorded only for new trials", _HB,
+      "        bracket_id = kwargs[\"bracket\"]\n        self._task_info[trial_id] = bracket_id\n",
+      "        bracket_id = kwargs[\"bracket\"]\n        if kwargs.get(\"new_config\", True):\n            self._task_info[trial_id] = bracket_id\n"),
+    B("trial added to the rung system of bracket 0", _HB,
+      "        rung_sys, skip_rungs = self._get_rung_system_for_bracket_id(bracket_id)\n        rung_sys.on_task_add(trial_id, skip_rungs=skip_rungs, **kwargs)",
+      "        rung_sys, skip_rungs = self._get_rung_system_for_bracket_id(0)\n        rung_sys.on_task_add(trial_id, skip_rungs=skip_rungs, **kwargs)"),
+    E("bracket stored straight from the keyword arguments", _HB,
+      "        bracket_id = kwargs[\"bracket\"]\n        self._task_info[trial_id] = bracket_id\n",
+      "        self._task_info[trial_id] = kwargs[\"bracket\"]\n        bracket_id = self._task_info[trial_id]\n"),
+]
